@@ -26,7 +26,7 @@ from ..oracle import sphere_writer as SW
 
 OPTIMIZED_SHARDS = 1  # shards run once more in an interpreter started with -O (vf/run.py)
 LEVEL = "exploration"
-TECHNIQUE = "runtime monitors on read_signal / wds_read_signal against per-container writers; hostile-bytes decoding in crash-isolated child processes"
+TECHNIQUE = "runtime monitors on read_signal / wds_read_signal against per-container writers; hostile-bytes decoding in crash-isolated child processes; ambient-settings monitor (stateless calls repeated under -W error and np.errstate raise)"
 RULE = (
     "round trips: seeded (container in wav16/wav32/flac/aiff/npy/npz/npz-compressed/pt/hdf5/raw/sph; shapes 0-/1-/many-sample, 1-6 channels, >=2-D for array "
     "containers; dtypes per container; multi-entry archives with key; access by file name (suffix inference, names with several dots / upper-case directory "
